@@ -173,9 +173,18 @@ def v3_case(rng):
     return b";\n".join(opts) + b";\n" + b" ".join(nums) + rng.choice([b"\n", b"", b" !c", b"\n!c\n"])
 
 
+# zero denominators written with one or several digits (must give NULL + flag, not SIGFPE), forms around the
+# RATIONAL token of tokenizer.l, denominators with leading zeros (legal), zero numerators
+INLINE_EDGE = ["1/0", "1/00", "3/000", "0/00", "0/0", "5/00i", "7/0i", "1/0e0", "1/00e2", "2/0.5", "3/04", "10/010",
+               "0/5", "00/1", "1/0000000000000000000000", "12/00x", "1/00/2", "1/2/0", "9/09i"]
+INLINE_WITNESSES = [b"1/00", b"x^2-3/000", b"5/00i", b"0/00", b"1/0e0", b"3/04", b"x^3+10/010x-1", b"1/0", b"2x^2 + 7/00x - 1",
+                    b"(x-1/00)^2", b"1/00i*x", b"x-3/0000000000000000000000000000000000000000",
+                    b"0000x", b"x^2+0000", b"000x", b"00000000/3x"]
+
+
 def inline_case(rng):
     def term():
-        c = rng.choice(["", "3", "-2", "1/2", "1.5", "2e3", "7", "12/5"])
+        c = rng.choice(["", "3", "-2", "1/2", "1.5", "2e3", "7", "12/5"] + (INLINE_EDGE if rng.random() < 0.25 else []))
         x = rng.choice(["", "x", "x^2", "x^3", "x^10", "x^0"])
         return (c + x) or "1"
     e = term()
@@ -188,7 +197,7 @@ def inline_case(rng):
         if not toks: break
         i = rng.randrange(len(toks)); r = rng.random()
         if r < 0.3: del toks[i]
-        elif r < 0.6: toks.insert(i, rng.choice(["^", "(", ")", "*", "/", "x", "y", "^-1", "e", "i", "%s", "%n", "1/0", "..", "9" * 400, "x^99999999999", "x^2000000", "\x00", "\xff"]))
+        elif r < 0.6: toks.insert(i, rng.choice(["^", "(", ")", "*", "/", "x", "y", "^-1", "e", "i", "%s", "%n", "1/0", "1/00", "/00", "/000i", "3/04", "..", "9" * 400, "x^99999999999", "x^2000000", "\x00", "\xff"]))
         else: toks[i] = rng.choice(["+", "-", "x", "^", "1e999999999", "0/0", ")"])
     return "".join(toks).encode("latin-1")
 
@@ -290,6 +299,7 @@ def gen_cases(ctx, pol_files):
     for _ in range(450 * scale): add(rng.choice(["string", "stream", "file", "inline"]), random_bytes(rng), "random")
     # (iv) inline expressions
     for _ in range(500 * scale): add("inline", inline_case(rng), "inline")
+    for w in INLINE_WITNESSES: add("inline", w, "witness:inline-zero-denominator")
     # correspondence inputs
     for _ in range(450 * scale): add(rng.choice(["tokmem", "tokfile"]), tok_text(rng), "tok")
     for _ in range(450 * scale): add("optline", opt_text(rng), "opt")
